@@ -51,7 +51,7 @@ fn main() {
 
     // watchdog: a hang is inconclusive (exit 2), never a violation
     let limit = Duration::from_secs(std::env::var("VERIF_WATCHDOG_S").ok().and_then(|s| s.parse().ok()).unwrap_or(match tier {
-        Tier::Quick => 1500,
+        Tier::Quick => 900,
         Tier::Thorough => 4 * 3600,
     }));
     let wid = id.clone();
